@@ -24,4 +24,10 @@ Conforms == R.kind = "gate" => R.diff = "" /\ R.cap = 100
 Outcome == (R.kind = "gate" /\ R.finished) =>
              /\ R.realReturned
              /\ R.realGot = (IF R.stopAt \in 1..R.n THEN R.stopAt ELSE R.n)
+\* the model's send is not enabled on a full channel: the real producer, let through its gate once more than the channel
+\* holds, does not get its node in before somebody takes one -- and afterwards every node arrives, in order
+FullProbe == R.kind = "fullprobe" =>
+               /\ R.note = ""
+               /\ ~R.passedFull
+               /\ R.allSeen /\ R.inOrder
 =============================================================================
